@@ -15,7 +15,8 @@ MANIFEST = {
             'inverse of that root; sqrt(0) = 0 and sqrt(0,INV) raises ZeroDivisionError for every p; the Cipolla ladder computes '
             'X^e in the quotient ring for every e (unbounded) and yields a square root under the norm hypothesis; '
             'bounded-exhaustive (all primes p < 200, all a): sqrt(a)^2 = a for squares, INV inverse, is_sqr(a) <-> a is a square. '
-            'The model is compared with the real methods on all elements of small primes and random elements of 61/64-bit primes.',
+            'The model is compared with the real methods on all elements of 27 primes <= 257 and on boundary/random elements of '
+            '61/64-bit primes of both classes (legendre also for 127/255-bit primes).',
     'note': 'Coq model restricted to prime fields. Extension fields (Tonelli-Shanks; q = 1 and 3 mod 4) and binary fields '
             '(Frobenius) are covered by the implementation-level oracle only: is_sqr/sqrt/INV against brute-force squares on all '
             'elements for q <= 2^16 (no Coq model of gfpx here). That gmpy.jacobi computes the Legendre symbol (quadratic '
@@ -97,6 +98,8 @@ def run(ctx):
                 x = rng.randrange(p)
                 els += [x * x % p, rng.randrange(p)]
             squares = None
+            # the model is evaluated on a prefix only (vm_compute on 64-bit moduli costs ~1 s per Cipolla ladder)
+            nmod = 0 if p.bit_length() > 64 else ctx.n(6, 40) if p % 4 == 1 else ctx.n(16, 80)
         got = []
         for a in els:
             e = F(a)
@@ -120,12 +123,19 @@ def run(ctx):
                      kind='GF(p) p=%s %s' % ('2' if p == 2 else '%d mod 4' % (p % 4), 'all elements' if p <= 257 else 'sampled'))
         if p <= 257:
             exprs.append('sqrt_table %s' % zlit(p))
+            meta.append(('sqrt', p, els, got))
         else:
-            exprs.append('sqrt_row %s %s' % (zlit(p), zlist(els)))
-        meta.append(('sqrt', p, els, got))
+            step = 2 if p % 4 == 1 else 8
+            midx = (list(range(3)) + list(range(9, 9 + nmod - 3))) if nmod else []     # 0, 1, 2 + squares/random ones
+            for k in range(0, len(midx), step):
+                sel = midx[k:k + step]
+                exprs.append('sqrt_row %s %s' % (zlit(p), zlist([els[i] for i in sel])))
+                meta.append(('sqrt', p, [els[i] for i in sel], [got[i] for i in sel]))
         # gmpy.legendre on arbitrary ints (negative / unreduced), against Euler's criterion
         if p > 2:
             xs = [0, 1, -1, 2, -2, p, -p, p + 1, p - 1, 2 * p + 3, -4 * 5 + 1] + [rng.randrange(-3 * p, 3 * p) for _ in range(ctx.n(12, 60))]
+            if p.bit_length() > 64:
+                xs = xs[:ctx.n(6, 30)]
             lg = []
             for x in xs:
                 l = int(gmpy.legendre(x, p))
@@ -141,7 +151,7 @@ def run(ctx):
 
     ctx.log('prime fields done (%d cases); evaluating %d model expressions in Coq' % (ctx.evaluations, len(exprs)))
     if ok:
-        res = ctx.coq_eval(['MPyC.Sqrt'], exprs, chunk=6)
+        res = ctx.coq_eval(['MPyC.Sqrt'], exprs, chunk=5, jobs=14)
         mism = n_model = 0
         for r, (kind, p, xs, got) in zip(res, meta):
             if isinstance(r, tuple) and r and r[0] == 'ERROR':
